@@ -3,9 +3,10 @@
 # gojq source file by the scheduling shim (verif/mc/syncshim). /repo itself is not touched.
 import sys, os, re, json, glob
 out = sys.argv[1]
+repo = sys.argv[2] if len(sys.argv) > 2 else "/repo"
 os.makedirs(out + "/ov", exist_ok=True)
 repl = {}
-for f in sorted(glob.glob("/repo/*.go") + glob.glob("/repo/cli/*.go")):
+for f in sorted(glob.glob(repo + "/*.go") + glob.glob(repo + "/cli/*.go")):
     if f.endswith("_test.go"):
         continue
     s = open(f).read()
